@@ -393,11 +393,19 @@ pub fn deep_graph(shape: &str, n: usize) -> GCase {
     match shape {
         "chain-of-2-cycles" => edges.extend((0..n / 2).map(|i| ((2 * i + 1) as Key, (2 * i) as Key, 2))),
         "chain-with-back-edges" => edges.extend((0..n / 100).map(|k| ((100 * k + 99) as Key, (100 * k) as Key, 3))),
+        // nodes 0..n-2 form a ring, every ring node points at node n-2... no: ring over 0..n-3, sinks A = n-2, B = n-1
+        "ring-with-sinks" => {
+            edges.clear();
+            let r = n - 2;
+            edges.extend((0..r).map(|i| (i as Key, ((i + 1) % r) as Key, 1)));
+            edges.extend((0..r).map(|i| (i as Key, r as Key, 2)));
+            edges.push((r as Key, (r + 1) as Key, 3));
+        }
         _ => {}
     }
     GCase { n, prio: vec![0; n], edges }
 }
-pub const DEEP_SHAPES: [&str; 3] = ["chain", "chain-of-2-cycles", "chain-with-back-edges"];
+pub const DEEP_SHAPES: [&str; 4] = ["chain", "chain-of-2-cycles", "chain-with-back-edges", "ring-with-sinks"];
 
 fn scc_deep<F: Flavour>(shape: &str, n: usize, st: &mut Stats) {
     let g = deep_graph(shape, n);
@@ -612,7 +620,21 @@ pub fn serde_case<F: Flavour>(g: &GCase, instances: usize, st: &mut Stats, count
                 st.class(&format!("format.{:?}.{}", fmt, F::NAME));
             }
             let r = catch_unwind(AssertUnwindSafe(|| -> Result<(), Fail> {
-                let (graph, _nodes) = build_graph::<F>(g, &order);
+                let (mut graph, _nodes) = build_graph::<F>(g, &order);
+                // a container with a history: on some instances a member is removed and inserted again, and a
+                // stranger is inserted and removed (the serialised graph is the same graph)
+                if k % 2 == 1 && g.n > 0 {
+                    let victim = ((k / 2) % g.n) as Key;
+                    if let Some(nd) = F::g_remove(&mut graph, victim) {
+                        F::g_insert(&mut graph, nd);
+                    }
+                    let stranger = F::new_node(60_000, NVal::plain(1));
+                    F::g_insert(&mut graph, stranger);
+                    let _ = F::g_remove(&mut graph, 60_000);
+                    if counting {
+                        st.class("container.member-removed-and-reinserted-before-serialising");
+                    }
+                }
                 let de = match fmt {
                     Fmt::Json => {
                         let doc = F::ser_json(&graph).map_err(|e| Fail { clause: "serialize.error", detail: e })?;
